@@ -71,7 +71,7 @@ CLAIMED = {
         design="DESIGN.md §4 C05"),
     "C20": dict(
         technique="static analysis: call-graph closure of the parse/build/open entry points over the resolved ASTs of all library units; exception-type, terminator-reachability, noexcept/destructor-escape and catch-site completeness rules on that closure",
-        text="Decides only the exception-discipline clause of the property (a necessary condition: breaking it turns an input error into process termination): in the closure of Parser::parse*, the EclipseState/Schedule/SummaryConfig constructors and the result-file readers, every throw expression throws a type derived from std::exception (or rethrows), no exit/abort/terminate call is reachable except the exits the caller configured (ParseContext EXIT1, ErrorGuard), no noexcept function or destructor contains a throw or calls a directly throwing repository function outside a try block, the wrapping catch sites cover std::exception and rethrow a documented type, and a loop that searches a string until npos while editing it restarts the search beyond the inserted text (the one loop shape whose termination is argued); token cursors of the hand-written scanners (UDQ and ACTIONX parsers and tokenizers, ACTIONX condition splitter, UNSMRY array scan - every index that the code itself compares with V.size(), uses in V[idx] and advances) are subscripted only where a preceding test on every path has established idx < V.size() since the last advance, and where the end is tested with equality they are never advanced from a state that may already be the end (branch-sensitive typestate over the structured AST); a container taken from DeckItem::getData is dereferenced with front()/back()/[k] only where its size is tested. NOT decided: bounds of any other index arithmetic, termination in general, out-of-bounds access, iterator/string_view arithmetic, hangs, undefined behaviour - these are runtime properties (sanitizers, fuzzing) outside this technique.",
+        text="Decides only the exception-discipline clause of the property (a necessary condition: breaking it turns an input error into process termination): in the closure of Parser::parse*, the EclipseState/Schedule/SummaryConfig constructors and the result-file readers, every throw expression throws a type derived from std::exception (or rethrows), no exit/abort/terminate call is reachable except the exits the caller configured (ParseContext EXIT1, ErrorGuard), no noexcept function or destructor contains a throw or calls a directly throwing repository function outside a try block, the wrapping catch sites cover std::exception and rethrow a documented type, and a loop that searches a string until npos while editing it restarts the search beyond the inserted text (the one loop shape whose termination is argued); token cursors of the hand-written scanners (UDQ and ACTIONX parsers and tokenizers, ACTIONX condition splitter, UNSMRY array scan - every index that the code itself compares with V.size(), uses in V[idx] and advances) are subscripted only where a preceding test on every path has established idx < V.size() since the last advance, and where the end is tested with equality they are never advanced from a state that may already be the end (branch-sensitive typestate over the structured AST); a container taken from DeckItem::getData is dereferenced with front()/back()/[k] only where its size is tested; C functions that read up to a NUL terminator never get the data() of a vector<char> or string_view. NOT decided: bounds of any other index arithmetic, termination in general, out-of-bounds access, iterator/string_view arithmetic, hangs, undefined behaviour - these are runtime properties (sanitizers, fuzzing) outside this technique.",
         note="Trusted: call graph from resolved callee names with overloads merged and every override of a same-named virtual included (over-approximation of reachability). Exceptions escaping from the standard library (std::stoi, .at()) are std::exception by construction.",
         design="DESIGN.md §4 C20"),
     "C02": dict(
